@@ -11,8 +11,8 @@ OWN = {
 }
 KINDS = {
     "C09": '{"vv", "vr"}',
-    "C12": '{"inv", "mem", "vv", "vr"}',
-    "C03": '{"vv", "vr", "mem", "inv"}',
+    "C12": '{"inv", "mem", "vv", "vr", "stk"}',
+    "C03": '{"vv", "vr", "mem", "inv", "stk"}',
     "C20": '{"vrbig", "mem"}',
 }
 ALLFORKS = '{"Frontier", "Homestead", "Tangerine", "Spurious", "Byzantium", "Constantinople", "Petersburg", "Istanbul", "Berlin", "London", "Merge", "Shanghai", "Cancun"}'
